@@ -12,7 +12,10 @@ Protocol (first line of a case is always `new`):
                                               tool: ok reorder garbage_empty garbage_ragged garbage_missing
                                                     garbage_length garbage_tree exit3 sigkill hang
                                                     missing isdir nulbyte
-    start | join - | join t | join 0 | join 0.0 | cancel | state | tick | call <method>
+    start | join - | join t | join 5 | join 0 | join 0.0 | cancel | state | tick | call <method>
+    chdir                 environment: the *caller* changes its working directory (cwd= is relative to where the caller is now)
+    setgap <a> [<b>]      MuscleApp.set_gap_penalty(a) / set_gap_penalty((a, b))
+    callbad <method>      a setter called with arguments it must reject (wrong matrix shape / wrong number of leaves)
     (`join t` = join(timeout=0.05); `join 0` / `join 0.0` = the boundary "do not wait")
 `tick` is the environment event "the external program is allowed to finish now" (the fake tools block on a gate
 file so that *when* the child exits is decided by the history, not by the scheduler).
@@ -33,7 +36,7 @@ GEN_FILES = ["BiotiteModel/Gen/C20.lean"]
 # (the web model lives in Model/C20Web.lean, Proofs/C20Web.lean; its theorems are in Props/C20.lean)
 RULE = ("histories (<= 6 calls quick, <= 8 thorough) of start/join/join(timeout incl. 0)/cancel/get_app_state/setters/getters "
         "+ the environment event `tick`, over 7 wrapper kinds (Application stub, LocalApp, ClustalO, MUSCLE3, MUSCLE5, "
-        "MAFFT, tantan) x 13 scripted behaviours of the external program (ok, reordered, 5 kinds of garbage, exit 3, killed by a "
+        "MAFFT, tantan) x 15 scripted behaviours of the external program (ok, reordered, 5 kinds of garbage, exit 3, killed by a "
         "signal after writing valid output, hang, and three launch failures: missing binary, bin_path is a directory "
         "[PermissionError], NUL byte in the command [ValueError, not an OSError]) x protein/nucleotide/custom-alphabet inputs; half template-based (every way a run can end), "
         "half random; the bare Application stub additionally gets all histories up to length 3 (thorough: 4), MafftApp all "
@@ -63,7 +66,8 @@ LEVEL_NOTE = ("trusted: OS/subprocess/tempfile, fake tools, FASTA/Newick parsers
 TECHNIQUE = "Lean 4 proof (invariant over all histories of a state machine) + regenerated guard table + correspondence"
 
 WRAPPERS = ["base", "local", "clustalo", "muscle3", "muscle5", "mafft", "tantan"]
-TOOLS = ["ok", "reorder", "garbage_empty", "garbage_ragged", "garbage_missing", "garbage_length", "garbage_tree", "exit3",
+TOOLS = ["ok", "reorder", "garbage_empty", "garbage_ragged", "garbage_missing", "garbage_length", "garbage_swap", "garbage_tree",
+         "bigout", "exit3",
          "sigkill", "hang", "hang_ignore_term", "missing", "isdir", "nulbyte"]
 HANGS = ("hang", "hang_ignore_term")      # never exit on their own; the second one also ignores SIGTERM
 # tools that cannot even be launched: the exception Popen raises (only `missing`/`isdir` are OSErrors)
@@ -460,9 +464,12 @@ class _Session:
         self.execdir = os.path.join(self.root, "exec")
         os.mkdir(self.tmpdir)
         os.mkdir(self.execdir)
+        self.otherdir = os.path.join(self.root, "caller2")     # where the caller goes on `chdir`
+        os.mkdir(self.otherdir)
         self.gate = os.path.join(self.root, "gate")
         self.log = os.path.join(self.root, "log")
         self.cwd0 = os.getcwd()
+        self.caller_cwd = self.cwd0                             # the directory the caller is in *now*
         self.old_tempdir = tempfile.tempdir
         self.old_env = {k: os.environ.get(k) for k in ("C20_GATE", "C20_LOG", "C20_VERSION")}
         tempfile.tempdir = self.tmpdir
@@ -542,7 +549,7 @@ class _Session:
                     sess.stub_child = "alive"
 
                 def is_finished(self):
-                    return sess.force_finish or (sess.tool not in HANGS and os.path.exists(sess.gate))
+                    return sess.force_finish or (sess.tool not in HANGS and os.path.exists(sess.gate))   # no pipes: bigout = ok
 
                 def wait_interval(self):
                     return 0.001
@@ -613,7 +620,7 @@ class _Session:
     def observe(self):
         st = self.app._state.name if self.app is not None else "NONE"
         return {"st": st,
-                "cwd": "same" if os.getcwd() == self.cwd0 else "changed",
+                "cwd": "same" if os.getcwd() == self.caller_cwd else "changed",
                 "files": len(os.listdir(self.tmpdir)),
                 "child": self.child(wait_dead=st in ("JOINED", "CANCELLED")) if self.app is not None else "none",
                 "cl": self.counter["n"] if self.app is not None else 0}
@@ -654,7 +661,39 @@ class _Session:
             rows.append(s)
         return rows
 
+    def snapshot(self):
+        """Everything the wrapper stores (for "a rejected call changes nothing"): attribute name -> comparable value."""
+        def safe(v, depth=0):
+            import numpy as np
+            if isinstance(v, (int, float, str, bool, type(None))):
+                return v
+            if isinstance(v, np.ndarray):
+                return ("ndarray", v.shape, v.tolist())
+            if isinstance(v, (list, tuple)) and depth < 2:
+                return [safe(x, depth + 1) for x in v]
+            if type(v).__name__ == "Tree":
+                return ("Tree", str(v))
+            if hasattr(v, "name") and hasattr(v, "closed"):
+                return ("file", v.name, v.closed)
+            if hasattr(v, "pid"):
+                return ("process", v.pid)
+            return (type(v).__name__, id(v))
+        return {k: safe(v) for k, v in vars(self.app).items()} if self.app is not None else {}
+
     # -- ops
+    def call_bad(self, name):
+        """The same setter with arguments it has to reject."""
+        app = self.app
+        if name == "set_distance_matrix":
+            import numpy as np
+            return app.set_distance_matrix(np.ones((self.nseq + 1, self.nseq)))
+        if name == "set_guide_tree":
+            from biotite.sequence.phylo import Tree
+            n = self.nseq + 1
+            nw = "(" * (n - 1) + "0:1.0" + "".join(f",{i}:1.0):1.0" for i in range(1, n - 1)) + f",{n - 1}:1.0);"
+            return app.set_guide_tree(Tree.from_newick(nw))
+        raise AttributeError("no bad-argument variant for " + name)
+
     def call_method(self, name):
         app = self.app
         if name == "set_arguments":
@@ -730,7 +769,7 @@ class _Session:
         try:
             if w[0] == "start":
                 app.start()
-                if self.released() and self.tool not in HANGS and self.wrapper != "base":
+                if self.released() and self.tool not in HANGS and self.tool != "bigout" and self.wrapper != "base":
                     self._wait_exit()                # gate already open: the child exits at once; make that observable
                 if self.tool == "hang_ignore_term" and self.wrapper != "base":
                     end = time.time() + 10.0         # wait until the tool has installed its SIGTERM handler
@@ -748,8 +787,8 @@ class _Session:
                         self.timers.append(t)
                         t.start()
                     return self._join_watched(None, 20.0)
-                timeout = {"t": TIMEOUT, "0": 0, "0.0": 0.0}[w[1]]
-                return self._join_watched(timeout, 2.0)
+                timeout = {"t": TIMEOUT, "5": 5.0, "0": 0, "0.0": 0.0}[w[1]]
+                return self._join_watched(timeout, 12.0 if w[1] == "5" else 2.0)
             if w[0] == "cancel":
                 app.cancel()
                 return "ok"
@@ -757,8 +796,19 @@ class _Session:
                 return "ok " + app.get_app_state().name
             if w[0] == "tick":
                 self.release()
-                if self.wrapper != "base" and self.tool not in HANGS:
+                if self.wrapper != "base" and self.tool not in HANGS and self.tool != "bigout":
                     self._wait_exit()
+                return "ok"
+            if w[0] == "chdir":
+                self.caller_cwd = self.otherdir if self.caller_cwd == self.cwd0 else self.cwd0
+                os.chdir(self.caller_cwd)
+                return "ok"
+            if w[0] == "setgap":
+                vals = [float(x) for x in w[1:]]
+                app.set_gap_penalty(vals[0] if len(vals) == 1 else tuple(vals))
+                return "ok"
+            if w[0] == "callbad":
+                self.call_bad(w[1])
                 return "ok"
             if w[0] == "call":
                 name = w[1]
@@ -780,6 +830,13 @@ class _Session:
                         "" if all(abs(float(val[i][j]) - abs(i - j)) < 1e-9 for i in range(len(val)) for j in range(len(val))) else " !")
                 if name == "get_exit_code":
                     return "ok " + str(val)
+                if name == "get_command":
+                    # only the part that depends on a validated option: MUSCLE's `-gapopen o -gapextend e`
+                    words = str(val).split()
+                    if "-gapopen" in words and "-gapextend" in words:
+                        o, e = words[words.index("-gapopen") + 1], words[words.index("-gapextend") + 1]
+                        return f"ok gap={int(float(o))}/{int(float(e))}"
+                    return "ok"
                 if name == "get_seqtype":
                     return "ok " + str(val)
                 return "ok"
@@ -1197,9 +1254,15 @@ def execute(case):
                     continue
                 before = after
                 released_before = sess.released()
+                is_call = line.split()[0] in ("call", "callbad", "setgap")
+                snap_before = sess.snapshot() if is_call else None
                 res = sess.op(line)
                 after = sess.observe()
                 extra = {"released_before": released_before}
+                if is_call and res.startswith("ERR:"):
+                    snap_after = sess.snapshot()
+                    extra["attrs_changed"] = sorted(k for k in set(snap_before) | set(snap_after)
+                                                    if snap_before.get(k, "<absent>") != snap_after.get(k, "<absent>"))
                 if line == "call get_alignment" and res.startswith("ok"):
                     extra["tool_rows"] = sess.tool_rows()
                 if line == "call get_alignment_order" and res.startswith("ok"):
@@ -1343,7 +1406,9 @@ def oracle(case):
             v.append((f"C20/map_sequence/oversized-alphabet-accepted/{k}", f"`{case['ops'][0]}` -> {r0}"))
     documented = {"start": set("ERR:" + e for e in LAUNCH_FAILURE.values()),
                   "join": {"ERR:TimeoutError", "ERR:SubprocessError", "ERR:EvalFailure"},
-                  "get_distance_matrix": {"ERR:ValueError"}}      # "requires full_matrix_calculation()"
+                  "get_distance_matrix": {"ERR:ValueError"},      # "requires full_matrix_calculation()"
+                  "set_gap_penalty": {"ERR:ValueError"}, "set_distance_matrix": {"ERR:ValueError"},
+                  "set_guide_tree": {"ERR:ValueError"}}           # invalid arguments (setgap / callbad ops)
     for t in trace[1:]:
         op, res, b, a = t["op"], t["result"], t["before"], t["after"]
         if res in ("no-app", "unmodelled", "bad-op"):
@@ -1351,12 +1416,27 @@ def oracle(case):
         ww = op.split()
         if res == "hang-join":
             key = {"0": "C20/join/timeout-zero-does-not-time-out", "0.0": "C20/join/timeout-zero-does-not-time-out",
-                   "t": "C20/join/timeout-does-not-time-out", "-": "C20/join/never-returns"}[ww[1]]
+                   "t": "C20/join/timeout-does-not-time-out", "5": "C20/join/timeout-does-not-time-out",
+                   "-": "C20/join/never-returns"}[ww[1]]
             v.append((key, f"`{op}` in state {b['st']} did not return within the watchdog limit ({case['ops']})"))
             break
-        name = {"start": "start", "join": "join", "cancel": "cancel", "state": "get_app_state"}.get(ww[0])
-        if ww[0] == "call":
+        name = {"start": "start", "join": "join", "cancel": "cancel", "state": "get_app_state", "setgap": "set_gap_penalty"}.get(ww[0])
+        if ww[0] in ("call", "callbad"):
             name = ww[1]
+        if ww[0] in ("call", "callbad", "setgap") and res.startswith("ERR:"):
+            # a rejected call (state guard, argument validation, missing result) must not change anything the wrapper stores
+            ch = t["extra"].get("attrs_changed") or []
+            if ch or a != b:
+                v.append((f"C20/rejected-call-side-effect/{name}/{'+'.join(ch) or 'resources'}",
+                          f"`{op}` was rejected with {res[4:]} but changed {ch or [k for k in a if a[k] != b[k]]} ({case['ops']})"))
+        if ww[0] == "setgap" and b["st"] == "CREATED" and wrapper == "muscle3":
+            vals = [float(x) for x in ww[1:]]
+            should_reject = any(x > 0 for x in vals)      # documented: "Gap penalty must be negative"
+            if should_reject != (res == "ERR:ValueError") or (not should_reject and res != "ok"):
+                v.append((f"C20/setter/set_gap_penalty/{'invalid-accepted' if should_reject else 'valid-rejected'}",
+                          f"`{op}` -> {res} ({case['ops']})"))
+        if ww[0] == "callbad" and b["st"] == "CREATED" and res != "ERR:ValueError":
+            v.append((f"C20/setter/{name}/invalid-accepted", f"`{op}` (wrong size) -> {res} ({case['ops']})"))
         if name is not None:
             allowed = b["st"] in DOC_ALLOWED[name]
             refused = res == "ERR:AppStateError"
@@ -1390,9 +1470,13 @@ def oracle(case):
                 if res != exp:
                     v.append(("C20/result/order-differs-from-tool-output", f"{res} expected {exp}"))
             if (name == "join" and res == "ok" and wrapper in ("clustalo", "muscle3", "muscle5", "mafft")
-                    and tool in ("garbage_empty", "garbage_missing", "garbage_ragged", "garbage_length")):
+                    and tool in ("garbage_empty", "garbage_missing", "garbage_ragged", "garbage_length", "garbage_swap")):
                 v.append((f"C20/result/garbage-accepted/{tool}", f"join() succeeded although the program's output was {tool} ({case['ops']})"))
-            if name == "join" and not refused and res in ("ERR:EvalFailure", "ERR:SubprocessError") and tool in ("ok", "reorder"):
+            if (name == "join" and not refused and ww[1] in ("-", "5") and res == "ERR:TimeoutError"
+                    and tool not in HANGS and (ww[1] == "-" or t["extra"].get("released_before"))):
+                v.append((f"C20/join/good-run-timed-out/{tool}",
+                          f"`{op}` raised TimeoutError and cancelled the run although the program was free to finish ({case['ops']})"))
+            if name == "join" and not refused and res in ("ERR:EvalFailure", "ERR:SubprocessError") and tool in ("ok", "reorder", "bigout"):
                 v.append((f"C20/result/valid-output-rejected/{wrapper}",
                           f"join() raised {res[4:]} although the program exited with 0 and wrote complete, valid output "
                           f"({nseq} sequences) ({case['ops']})"))
@@ -1473,8 +1557,16 @@ TEMPLATES = [
 
 def _sanitize(new_line, ops):
     """`join -` on a running program that never exits would block: use the timeout form in `hang` environments."""
-    if new_line.split()[2] in HANGS:
+    tool = new_line.split()[2]
+    if tool in HANGS:
         ops = ["join t" if o == "join -" else o for o in ops]
+    if tool == "bigout":
+        # once the gate is open a short timeout would race with the program draining its output: use the generous one
+        out, ticked = [], False
+        for o in ops:
+            ticked = ticked or o == "tick"
+            out.append("join 5" if (o == "join t" and ticked) else o)
+        ops = out
     return ops
 
 
@@ -1490,7 +1582,7 @@ def _random_history(rng, wrapper, maxlen):
     while len(ops) < n:
         r = rng.random()
         if r < 0.7 or not meths:
-            ops.append(rng.choice(CORE_OPS + ["join -", "tick", "cancel", "join 0", "join 0.0"]))
+            ops.append(rng.choice(CORE_OPS + ["join -", "tick", "cancel", "join 0", "join 0.0", "chdir"]))
         else:
             ops.append("call " + rng.choice(meths))
     return ops[:maxlen]
@@ -1570,6 +1662,33 @@ def cases(rng, tier):
                             [[f"join {z}"], ["start", f"join {z}", "state"], ["start", "state", f"join {z}", f"join {z}"],
                              ["start", "tick", f"join {z}"], ["start", "tick", "state", f"join {z}"]]):
                     add(_mk(f"new {wrapper} {tool} 3 prot", ops, "join-zero"))
+    # a program that writes more than a pipe buffer before it exits: join must read the pipes *while* waiting
+    for wrapper in (("local", "mafft", "clustalo", "tantan") if quick else WRAPPERS[1:]):
+        msa = wrapper in ("clustalo", "muscle3", "muscle5", "mafft")
+        add(_mk(f"new {wrapper} bigout 3 prot", ["start", "tick", "join 5"] + (["call get_alignment"] if msa else ["call get_exit_code"]), "big-output"))
+        add(_mk(f"new {wrapper} bigout 3 prot", ["start", "join -", "call get_stderr"], "big-output"))
+        add(_mk(f"new {wrapper} bigout 3 prot", ["start", "tick", "state", "cancel"], "big-output"))
+    # the caller changes its working directory between constructing the wrapper and start() / join()
+    for wrapper in (("local", "clustalo", "mafft") if quick else WRAPPERS[1:]):
+        for tool in ("ok", "missing", "nulbyte", "exit3"):
+            if wrapper in ("muscle3", "muscle5") and tool in LAUNCH_FAILURE:
+                continue
+            add(_mk(f"new {wrapper} {tool} 3 prot", ["chdir", "start", "tick", "join -"], "caller-chdir"))
+            add(_mk(f"new {wrapper} {tool} 3 prot", ["chdir", "call set_exec_dir", "start", "chdir", "join t"], "caller-chdir"))
+            add(_mk(f"new {wrapper} {tool} 3 prot", ["start", "chdir", "cancel", "chdir"], "caller-chdir"))
+    # setters that validate their arguments: a rejected call must not leave a half-updated option behind
+    gap_vals = [("-3", "-1"), ("-5", "5"), ("5", "-1"), ("2",), ("-4",), ("0", "0"), ("-2", "1")]
+    for i, first in enumerate(gap_vals):
+        for second in gap_vals[(i + 1) % len(gap_vals):][:(2 if quick else len(gap_vals))]:
+            add(_mk("new muscle3 ok 3 prot", ["setgap " + " ".join(first), "setgap " + " ".join(second), "start", "call get_command",
+                                              "setgap -1"], "setter-validation"))
+    add(_mk("new muscle3 ok 3 prot", ["call set_gap_penalty", "setgap -5 5", "start", "tick", "join -", "call get_command"], "setter-validation"))
+    add(_mk("new clustalo ok 3 prot", ["callbad set_distance_matrix", "callbad set_guide_tree", "start", "join -", "call get_guide_tree"], "setter-validation"))
+    add(_mk("new clustalo reorder 4 prot", ["call set_guide_tree", "call set_distance_matrix", "callbad set_guide_tree", "callbad set_distance_matrix",
+                                            "start", "callbad set_guide_tree", "join -", "call get_guide_tree"], "setter-validation"))
+    # corrupted output whose per-row symbol-count errors cancel
+    for wrapper in ("clustalo", "muscle3", "muscle5", "mafft"):
+        add(_mk(f"new {wrapper} garbage_swap {3 if wrapper != 'mafft' else 4} prot", ["start", "tick", "join -", "call get_alignment"], "garbage-swap"))
     # ten and more sequences (two-digit running numbers / names in the tools' output files), all result getters
     big = [("mafft", "ok", 11), ("mafft", "reorder", 10), ("clustalo", "reorder", 12), ("muscle3", "ok", 10), ("muscle5", "reorder", 11)]
     if not quick:
@@ -1651,6 +1770,12 @@ def corpus():
         # timeout 0 / 0.0 on an unfinished job is a timeout, not "no timeout"
         {"kind": "regression", "ops": ["new base ok 2 prot", "start", "join 0", "state"]},
         {"kind": "regression", "ops": ["new base hang 2 prot", "start", "join 0.0"]},
+        # round 4: big output on a pipe, caller changes directory, half-valid setter arguments, cancelling length errors
+        {"kind": "regression", "ops": ["new mafft bigout 3 prot", "start", "tick", "join 5", "call get_alignment"]},
+        {"kind": "regression", "ops": ["new local missing 2 prot", "chdir", "start"]},
+        {"kind": "regression", "ops": ["new clustalo ok 3 prot", "chdir", "start", "tick", "join -"]},
+        {"kind": "regression", "ops": ["new muscle3 ok 3 prot", "setgap -3 -1", "setgap -5 5", "start", "call get_command"]},
+        {"kind": "regression", "ops": ["new muscle5 garbage_swap 3 prot", "start", "join -", "call get_alignment"]},
         # reordered output, custom alphabet
         {"kind": "regression", "ops": ["new muscle3 reorder 4 generic", "start", "tick", "state", "join -", "call get_alignment",
                                        "call get_alignment_order"]},
